@@ -92,8 +92,9 @@ class Phys:
        ('obj', o) | ('stm', extra_dict_entries, data, length) | ('objstm', index, broken) | ('garbage',)
        length: ('direct', n) | ('ref', num, resolved: bool)   -- resolved: num is a Normal entry holding len(data)
        index: list of (num, obj | None)   -- None: offset out of bounds"""
-    def __init__(self, num, kind):
+    def __init__(self, num, kind, gen=0):
         self.num = num
+        self.gen = gen       # generation in the object header (the xref entry always says 0; the reader does not compare)
         self.kind = kind
         self.offset = None
         self.parsed = None   # case-language text of the expected parse
@@ -131,9 +132,9 @@ def layout(rng, phys, xref, root, mark=True, compressed=None):
     for p in phys:
         p.offset = len(out)
         k = p.kind
-        oid = OID(p.num, 0)
+        oid = OID(p.num, p.gen)
         if k[0] == 'obj':
-            out += b'%d 0 obj\n' % p.num + pdf(k[1]) + b'\nendobj\n'
+            out += b'%d %d obj\n' % (p.num, p.gen) + pdf(k[1]) + b'\nendobj\n'
             p.parsed = L('obj', oid, sx(k[1]))
         elif k[0] == 'garbage':
             out += b'this is not an object\n'
@@ -158,7 +159,7 @@ def layout(rng, phys, xref, root, mark=True, compressed=None):
                 lobj = ('ref', length[1], 0)
             pos = rng.randint(0, len(entries))
             entries.insert(pos, (b'Length', lobj))
-            head = b'%d 0 obj\n' % p.num + pdf(('d', entries)) + b'\nstream\n'
+            head = b'%d %d obj\n' % (p.num, p.gen) + pdf(('d', entries)) + b'\nstream\n'
             out += head
             start = len(out)
             out += data + b'\nendstream\nendobj\n'
@@ -252,8 +253,11 @@ def gen_random(rng, nstreams, agree, tier):
             length = ('ref', total + 40, False)      # dangling
         phys.append(Phys(k, ('stm', extra, data, length)))
     for k in plain_keys:
-        o = ('i', int_holder[1]) if int_holder and int_holder[0] == k else rand_obj(rng)
-        phys.append(Phys(k, ('obj', o)))
+        held = int_holder and int_holder[0] == k
+        o = ('i', int_holder[1]) if held else rand_obj(rng)
+        # a number that object streams also define, present under another generation: members are not added (61ef95a)
+        gen = rng.choice([0, 2, 65535]) if (k in collide and not held) else 0
+        phys.append(Phys(k, ('obj', o), gen))
     # object streams
     bodies = {}
     for k in os_keys:
